@@ -52,11 +52,11 @@ PROPS = {
     },
     "C03": {
         "groups": [{"name": "json", "tags": "verif", "run": "^VH_C03_", "flags": {"harness-timeout": 280},
-                    "quick": {"params": "depth=2"}, "thorough": {"params": "depth=4", "harness-timeout": 3000, "max-paths": 5000000}}],
+                    "quick": {"params": "depth=2"}, "thorough": {"params": "depth=3", "harness-timeout": 3000, "max-paths": 5000000}}],
         "level": "model_checking",
         "bounds": {
             "quick": "derivation chains of 0..2 steps over {With+field, Hook(record / add field / discard), Level, Output, Sample, With+UpdateContext}, 5 level-field settings (default, empty name, renamed, custom marshaller with a text for every level, custom marshaller returning \"\"), 6 entry points (Info, Log, WithLevel(Error), Err(nil), Warn, WithLevel(NoLevel)), 0..2 event fields, message empty or not, 4 finalizers: every combination; LevelHook over all 256 configurations x 8 levels",
-            "thorough": "chains of 0..4 steps",
+            "thorough": "chains of 0..3 steps (0..4 was run clean, 1.0 M paths in 16 minutes, before the entry points and level settings were widened; with them depth 4 exceeds the path budget)",
             "note": "control structure is enumerated by Choice; the solver is needed only for the few symbolic bytes, so this check is closer to exhaustive bounded exploration of the real code than to a symbolic proof; chains longer than the bound follow from the one-step derivation lemmas of C05 (hooks = parent's hooks ++ new, context = parent's context ++ new)",
         },
         "assumptions": COMMON_ASSUME + STR_STUBS[:3],
@@ -284,7 +284,7 @@ MANIFEST_TEXT = {
     "C03": {
         "level_text": "Bounded model checking / exhaustive bounded exploration of the real newEvent/msg/hook code: for every derivation chain, hook behaviour, entry point and finalizer within the bound, the written line is parsed and its top-level key sequence must equal level, context fields (root first), event fields, hook fields, message; the hook log must show each hook once, ancestors first, with the final message and the event's level.",
         "design_ref": "DESIGN.md §3 C03",
-        "level_note": "Bound: chains of <= 2 (thorough 4) derivation steps, <= 2 event fields; the message text produced by Msgf comes from a stub (the Msgf path is in C01's line harness).",
+        "level_note": "Bound: chains of <= 2 (thorough 3) derivation steps, <= 2 event fields; the message text produced by Msgf comes from a stub (the Msgf path is in C01's line harness).",
     },
     "C05": {
         "level_text": "Bounded model checking with a memory model that tracks backing-array identity: freshness / write-set lemmas for every derivation operation from an arbitrary parent (so they compose to trees of any shape), pooled-event lemmas from pool states left by other events, and differential trees (built-in-a-tree vs built-alone).",
